@@ -476,7 +476,8 @@ const c19Rule = "three families. (XOF state machine) implementation in {blake2xb
 	"{Write(n), Read(n), XORKeyStream(n, in place or not), Reseed, Clone, Reset (factory-made instances only)}, chunk sizes from {0,1,2,31..33,63..65,127..129,135..137,200,256,600,any}; Write is only generated while nothing was read in the current epoch (documented panic otherwise); " +
 	"every output is compared with a single-shot reference computed from scratch on golang.org/x/crypto (seed, all absorbed data, one Read of offset+n bytes); Reseed = new instance keyed with the next 128 output bytes; Reset = back to New(seed). " +
 	"(random.New) 1..4 readers full/short/failing with at least one delivering 32 bytes: no panic, deterministic, unaffected by unread bytes, changed by any flipped consumed byte. (random.Bits/Int) bit lengths 0..1030, moduli of 1..521 bits incl. 1, 2, 2^k, 2^k±1, adversarial streams: range, exact bit length, function of consumed bytes; bias decided exhaustively over all 1-/2-byte prefixes. " +
-	"non-trivial = a machine run containing Reseed/Clone/Reset or a read straddling a 64-byte block boundary; several or partly failing readers; non-byte-aligned or exact Bits; non-power-of-two modulus; distinct = distinct rendered case"
+	"non-trivial = a machine run containing Reseed/Clone/Reset or a read straddling a 64-byte block boundary; several or partly failing readers; non-byte-aligned or exact Bits; non-power-of-two modulus; distinct = distinct rendered case" +
+	" Added after the sensitivity rounds: the caller overwrites the seed buffer passed to New and every written buffer."
 
 func TestC19_XOF(t *testing.T) {
 	ev := evFor("C19")
